@@ -117,6 +117,12 @@ func genAE(rng *Rng, seqs [][]uint64, now int64) aeCase {
 			pre.ST = e.Term
 		}
 	}
+	if rng.Chance(5) {
+		// the same crash point with a log that is SHORTER than the received snapshot (S21): after the
+		// restart the boundary lies beyond the end of the log
+		pre.SI = flog.LastIndex() + 1 + uint64(rng.Intn(3))
+		pre.ST = T - uint64(rng.Intn(2))
+	}
 	if rng.Chance(6) && len(flog.Ents) > 0 {
 		// a node restarted from the directory as it is between the two storage writes of InstallSnapshot:
 		// the received snapshot is visible, the log not yet discarded and still holding, at the snapshot's
